@@ -14,9 +14,9 @@ enum K {
     O,      // legacy palette chunk
     P,      // new palette chunk
     I,      // ignorable chunk (cel extra / mask / path)
-    U,      // user data
+    U(u8),  // user data with flags (bit 0 text, bit 1 colour; 0 = the flag-less placeholder record)
 }
-const ALPHA: [K; 9] = [K::L, K::C, K::S, K::T(1), K::T(2), K::O, K::P, K::I, K::U];
+const ALPHA: [K; 12] = [K::L, K::C, K::S, K::T(1), K::T(2), K::O, K::P, K::I, K::U(0), K::U(1), K::U(2), K::U(3)];
 
 #[derive(Clone, Copy, PartialEq, Debug)]
 enum Ctx {
@@ -68,7 +68,7 @@ fn spec(seq: &[K]) -> Option<Expect> {
             }
             K::O => ctx = Ctx::Sprite,
             K::P | K::I => {}
-            K::U => match ctx {
+            K::U(_) => match ctx {
                 Ctx::None => return None,
                 Ctx::Layer(l) => {
                     if e.layers[l].is_some() {
@@ -107,13 +107,8 @@ fn spec(seq: &[K]) -> Option<Expect> {
     Some(e)
 }
 
-fn ud_for(i: usize) -> UD {
-    // text and colour flags vary with the position so that both flags are exercised
-    match i % 3 {
-        0 => UD { text: Some(format!("u{}", i)), color: None },
-        1 => UD { text: Some(format!("u{}", i)), color: Some([i as u8, 1, 2, 3]) },
-        _ => UD { text: None, color: Some([i as u8, 9, 8, 7]) },
-    }
+fn ud_for(i: usize, flags: u8) -> UD {
+    UD { text: if flags & 1 != 0 { Some(format!("u{}", i)) } else { None }, color: if flags & 2 != 0 { Some([i as u8, 9, 8, 7]) } else { None } }
 }
 
 fn encode_seq(seq: &[K]) -> Vec<u8> {
@@ -143,7 +138,7 @@ fn encode_seq(seq: &[K]) -> Vec<u8> {
             K::O => chunks.push((0x0004, legacy_palette_payload(4, &[[1, 2, 3]]))),
             K::P => chunks.push((0x2019, palette_payload(&Sprite::gray_palette(2)))),
             K::I => chunks.push(([0x2006u16, 0x2016, 0x2017][i % 3], vec![0x5A; 24])),
-            K::U => chunks.push((0x2020, ud_payload(&ud_for(i)))),
+            K::U(fl) => chunks.push((0x2020, ud_payload(&ud_for(i, fl)))),
         }
     }
     let mut out = header(&s, &o, 0);
@@ -152,11 +147,15 @@ fn encode_seq(seq: &[K]) -> Vec<u8> {
     out
 }
 
-fn ud_matches(got: Option<&UserData>, want: Option<usize>) -> bool {
+fn ud_matches(seq: &[K], got: Option<&UserData>, want: Option<usize>) -> bool {
     match (got, want) {
         (None, None) => true,
         (Some(g), Some(i)) => {
-            let w = ud_for(i);
+            let fl = match seq[i] {
+                K::U(f) => f,
+                _ => 0,
+            };
+            let w = ud_for(i, fl);
             g.text == w.text && g.color.map(|c| c.0) == w.color
         }
         _ => false,
@@ -169,7 +168,7 @@ fn check_seq(seq: &[K], st: &mut Stats) {
         None => return,
     };
     let bytes = encode_seq(seq);
-    st.case(&seq.to_vec(), seq.contains(&K::U));
+    st.case(&seq.to_vec(), seq.iter().any(|k| matches!(k, K::U(_))));
     let f = match load(&bytes) {
         Ok(f) => f,
         Err(err) => {
@@ -182,13 +181,13 @@ fn check_seq(seq: &[K], st: &mut Stats) {
         bad.push("layer count".to_string());
     } else {
         for (l, w) in e.layers.iter().enumerate() {
-            if !ud_matches(f.layer(l as u32).user_data(), *w) {
+            if !ud_matches(seq, f.layer(l as u32).user_data(), *w) {
                 bad.push(format!("layer {}", l));
             }
         }
         for l in 0..e.layers.len() {
             let w = e.cels.get(l).copied().flatten();
-            if !ud_matches(f.cel(0, l as u32).user_data(), w) {
+            if !ud_matches(seq, f.cel(0, l as u32).user_data(), w) {
                 bad.push(format!("cel on layer {}", l));
             }
         }
@@ -197,7 +196,7 @@ fn check_seq(seq: &[K], st: &mut Stats) {
         bad.push("slice count".into());
     } else {
         for (k, w) in e.slices.iter().enumerate() {
-            if !ud_matches(f.slices()[k].user_data.as_ref(), *w) {
+            if !ud_matches(seq, f.slices()[k].user_data.as_ref(), *w) {
                 bad.push(format!("slice {}", k));
             }
         }
@@ -206,12 +205,12 @@ fn check_seq(seq: &[K], st: &mut Stats) {
         bad.push("tag count".into());
     } else {
         for (k, w) in e.tags.iter().enumerate() {
-            if !ud_matches(f.tag(k as u32).user_data(), *w) {
+            if !ud_matches(seq, f.tag(k as u32).user_data(), *w) {
                 bad.push(format!("tag {}", k));
             }
         }
     }
-    if !ud_matches(f.sprite_user_data(), e.sprite) {
+    if !ud_matches(seq, f.sprite_user_data(), e.sprite) {
         bad.push("sprite".into());
     }
     if !bad.is_empty() {
@@ -222,7 +221,7 @@ fn check_seq(seq: &[K], st: &mut Stats) {
 #[test]
 fn x_userdata_exhaustive() {
     let maxlen = budget(5, 6);
-    let mut st = Stats::new("x_userdata_exhaustive", &format!("EXHAUSTIVE: every admissible sequence of up to {} chunks over {{layer, cel, slice, tags(1), tags(2), legacy palette, palette, ignorable, user data}}; seeded random sequences up to length 40", maxlen));
+    let mut st = Stats::new("x_userdata_exhaustive", &format!("EXHAUSTIVE: every admissible sequence of up to {} chunks over {{layer, cel, slice, tags(1), tags(2), legacy palette, palette, ignorable, user data with each of the 4 flag combinations}}; seeded random sequences up to length 40", maxlen));
     fn rec(seq: &mut Vec<K>, maxlen: usize, st: &mut Stats) {
         if !seq.is_empty() {
             if spec(seq).is_none() {
@@ -258,6 +257,6 @@ fn x_userdata_exhaustive() {
         check_seq(&seq, &mut st);
         done += 1;
     }
-    st.sample("[L, U, C, I, U, T(2), U, U] -> layer 0, cel 0, tag 0, tag 1".into());
+    st.sample("[L, U(1), C, I, U(2), T(2), U(0), U(3)] -> layer 0, cel 0, tag 0 (empty record), tag 1".into());
     st.finish();
 }
